@@ -39,7 +39,7 @@ func init() {
 			"wants-old-data => the long-term stores were consulted; document i is the document of ID i, or empty, and not empty when its store's stream was flawless. " +
 			"non-trivial = at least one shard answered and at least one fault was injected; distinct = (topology, behaviour assignment)",
 		Assumptions: []string{"fake stores answer instantly and ignore cancellation; when several shards return different special codes the order in which the proxy sees them is scheduler-dependent and either documented outcome is accepted"},
-		Batches:     tiered(32, 192),
+		Batches:     tiered(320, 5760),
 		Run:         runC16,
 		Timeout:     timeoutFor(8*time.Minute, 40*time.Minute),
 	})
